@@ -146,3 +146,41 @@ Example ex_skip_unknown :
   | _ => Err
   end = Ok [((t_latn, []), (1, [2]))].
 Proof. vm_compute. reflexivity. Qed.
+
+(* ------------------------------------------------------------------ *)
+(* tags without an x extension                                         *)
+From C14B Require Import Proofs_plain.
+
+Definition pt_bnBeng : ptag := mk_ptag 0 [98; 110] [66; 101; 110; 103].      (* bn-Beng *)
+Definition pt_mlMlym : ptag := mk_ptag 0 [109; 108] [77; 108; 121; 109].     (* ml-Mlym *)
+Definition t_beng : list N := [98; 101; 110; 103].
+Definition t_bng2 : list N := [98; 110; 103; 50].
+
+(* the smallest matching OpenType tags, whatever the order; the Chinese
+   special cases; a language and a script the tables do not know *)
+Example ex_plain :
+  M_plain_tag gtab_langBcp47 gtab_scriptBcp47 pt_bnBeng = (t_beng, [66; 69; 78; 32]) /\
+  M_plain_tag (rev gtab_langBcp47) (rev gtab_scriptBcp47) pt_bnBeng = (t_beng, [66; 69; 78; 32]) /\
+  M_plain_tag (rev gtab_langBcp47) gtab_scriptBcp47 pt_mlMlym = ([109; 108; 109; 50], [77; 65; 76; 32]) /\
+  M_plain_tag gtab_langBcp47 gtab_scriptBcp47 (mk_ptag 2 [122; 104] [72; 97; 110; 115]) = (tag_hani, [90; 72; 83; 32]) /\
+  M_plain_tag gtab_langBcp47 gtab_scriptBcp47 (mk_ptag 0 [113; 113; 113] [81; 113; 113; 113]) = ([], []).
+Proof. vm_compute. repeat split; reflexivity. Qed.
+
+(* as found (stop at the first match): two iteration orders of the script
+   table, two answers for bn-Beng - "beng" and "bng2" *)
+Lemma plain_tag_as_found_refuted :
+  Permutation (rev gtab_scriptBcp47) gtab_scriptBcp47 /\
+  M_plain_tag_gen false false gtab_langBcp47 gtab_scriptBcp47 pt_bnBeng = (t_beng, [66; 69; 78; 32]) /\
+  M_plain_tag_gen false false gtab_langBcp47 (rev gtab_scriptBcp47) pt_bnBeng = (t_bng2, [66; 69; 78; 32]).
+Proof. split; [symmetry; apply Permutation_rev|]. vm_compute. split; reflexivity. Qed.
+
+(* a script list keyed by plain tags: the bytes do not depend on the order of the tables *)
+Definition ex_plain_info : list (gtag * langsys) :=
+  [(PTag pt_bnBeng, (65535, [0; 1])); (PTag pt_mlMlym, (2, [3])); (XTag [120; 45; 108; 97; 116; 110], (65535, [4]))].
+Example ex_plain_encode :
+  M_sl_info_encode_g (rev gtab_langBcp47) (rev gtab_scriptBcp47) ex_plain_info =
+  M_sl_info_encode_g gtab_langBcp47 gtab_scriptBcp47 ex_plain_info /\
+  M_sl_group_g gtab_langBcp47 gtab_scriptBcp47 ex_plain_info =
+  [(t_beng, None, [([66; 69; 78; 32], (65535, [0; 1]))]); (t_latn, Some (65535, [4]), []);
+   ([109; 108; 109; 50], None, [([77; 65; 76; 32], (2, [3]))])].
+Proof. vm_compute. split; reflexivity. Qed.
